@@ -997,7 +997,14 @@ where
         let mom_plus = mom_prime.clone();
         let grad_minus = grad_prime.clone();
         let grad_plus = grad_prime.clone();
-        let alpha_prime = T::min(T::one(), (joint - joint_0).exp());
+        // A NaN energy change (the leaf left the target's domain) is a rejected leaf. `T::min(1, NaN)`
+        // is 1, which made dual averaging see perfect acceptance and grow the step size without bound.
+        let accept_ratio = (joint - joint_0).exp();
+        let alpha_prime = if accept_ratio.is_nan() {
+            T::zero()
+        } else {
+            T::min(T::one(), accept_ratio)
+        };
         let n_alpha_prime = 1_usize;
         #[cfg(mini_mcmc_verif)]
         crate::verif::push(crate::verif::Event::NutsLeaf {
